@@ -27,7 +27,10 @@ def build_cases(seed, n):
     for (s, recs, g) in records_schema_cases(seed, n):
         codec = rnd.choice(["null", "null", "deflate", "bzip2", "xz"])
         level = rnd.choice([None, None, 1, 9]) if codec == "deflate" else None
-        meta = rnd.choice([None, {}, {"k": "v"}, {"owner": "é", "x": ""}, {"a": "1", "b": "2", "c": "3"}])
+        meta = rnd.choice([None, {}, {"k": "v"}, {"owner": "é", "x": ""}, {"a": "1", "b": "2", "c": "3"},
+                           # metadata carried over from another file: its schema / codec entries must not win
+                           {"avro.schema": json.dumps({"type": "record", "name": "Stale", "fields": [{"name": "zz", "type": "string"}]}), "k": "v"},
+                           {"avro.codec": "snappy", "avro.schema": "\"string\""}])
         sync = rnd.choice([b"", bytes(range(16)), bytes([rnd.getrandbits(8) for _ in range(16)])])
         kind = rnd.choice(["bytesio", "bytesio", "file", "writeonly"])
         parsed = rnd.random() < 0.5
@@ -167,7 +170,7 @@ def run(tier, seed):
             why = "sync marker in the file differs from the one supplied"
         elif meta.get("avro.codec", b"null").decode() != c["codec"]:
             why = "header names codec %r, supplied %r" % (meta.get("avro.codec"), c["codec"])
-        elif any(meta.get(k) != v.encode() for k, v in (c["meta"] or {}).items()):
+        elif any(meta.get(k) != v.encode() for k, v in (c["meta"] or {}).items() if k not in ("avro.schema", "avro.codec")):
             why = "user metadata not found unchanged in the header"
         else:
             try:
@@ -186,7 +189,7 @@ def run(tier, seed):
                     case["read_back"] = got[:4]
                 elif rd.codec != c["codec"]:
                     why = "reader reports codec %r" % rd.codec
-                elif any(rd.metadata.get(k) != v for k, v in (c["meta"] or {}).items()):
+                elif any(rd.metadata.get(k) != v for k, v in (c["meta"] or {}).items() if k not in ("avro.schema", "avro.codec")):
                     why = "reader does not report the supplied metadata"
                 elif to_parsing_canonical_form(rd.writer_schema) != to_parsing_canonical_form(json.loads(json.dumps(s))):
                     why = "reader reports a schema with another canonical form"
